@@ -5,6 +5,7 @@
 package main
 
 import (
+	"bytes"
 	"fmt"
 	"os"
 	"runtime"
@@ -61,6 +62,26 @@ func statelessPass(iters int) {
 		&didtypes.MsgDeactivateDIDRequest{Did: "did:panacea:7Prd74ry1Uct87nZqL3ny7aR7Cg46JamVbJgk8azVgUm", VerificationMethodId: "x", Signature: []byte{1}, FromAddress: A.Bech},
 	}
 	doc := didtypes.NewDIDDocument("did:panacea:7Prd74ry1Uct87nZqL3ny7aR7Cg46JamVbJgk8azVgUm")
+	// a rich document shared between goroutines: three contexts (not in lexicographic order), controller list, two methods,
+	// a service; validation and sign-bytes code must only READ it
+	richKey := tmsecp.GenPrivKeySecp256k1([]byte("race-rich"))
+	richDID := didtypes.NewDID(richKey.PubKey().Bytes())
+	vm1 := didtypes.NewVerificationMethod(richDID+"#key1", "EcdsaSecp256k1VerificationKey2019", richDID, richKey.PubKey().Bytes())
+	vm2 := didtypes.NewVerificationMethod(richDID+"#key2", "EcdsaSecp256k1VerificationKey2019", richDID, richKey.PubKey().Bytes())
+	rich := didtypes.NewDIDDocument(richDID, didtypes.WithVerificationMethods([]*didtypes.VerificationMethod{&vm1, &vm2}),
+		didtypes.WithAuthentications([]didtypes.VerificationRelationship{didtypes.NewVerificationRelationship(vm1.Id), didtypes.NewVerificationRelationshipDedicated(vm2)}),
+		didtypes.WithServices([]*didtypes.Service{{Id: "s2", Type: "T", ServiceEndpoint: "https://b.example"}, {Id: "s1", Type: "T", ServiceEndpoint: "https://a.example"}}),
+		didtypes.WithController(richDID))
+	rich.Contexts = &didtypes.JSONStringOrStrings{didtypes.ContextDIDV1, "https://w3id.org/security/suites/secp256k1-2019/v1", "https://w3id.org/security/suites/ed25519-2018/v1"}
+	richSig, err := didtypes.Sign(&rich, 0, richKey)
+	if err != nil {
+		panic(err)
+	}
+	richCreate := &didtypes.MsgCreateDIDRequest{Did: richDID, Document: &rich, VerificationMethodId: vm1.Id, Signature: richSig, FromAddress: A.Bech}
+	richUpdate := &didtypes.MsgUpdateDIDRequest{Did: richDID, Document: &rich, VerificationMethodId: vm1.Id, Signature: richSig, FromAddress: A.Bech}
+	wantDocBytes := append([]byte{}, rich.GetSignBytes()...) // taken before any validation call
+	wantCreate := append([]byte{}, richCreate.GetSignBytes()...)
+	wantUpdate := append([]byte{}, richUpdate.GetSignBytes()...)
 	var wg sync.WaitGroup
 	// DID proofs made and verified concurrently on different documents: every valid proof must verify. Many more
 	// goroutines than processors, so that goroutines share per-P state (sync.Pool caches) and get switched often.
@@ -101,6 +122,17 @@ func statelessPass(iters int) {
 				_ = didtypes.ValidateDID(doc.Id)
 				_ = doc.Valid()
 				_ = doc.GetSignBytes()
+				_ = richCreate.ValidateBasic()
+				_ = richUpdate.ValidateBasic()
+				_ = rich.Valid()
+				if !bytes.Equal(rich.GetSignBytes(), wantDocBytes) || !bytes.Equal(richCreate.GetSignBytes(), wantCreate) || !bytes.Equal(richUpdate.GetSignBytes(), wantUpdate) {
+					fmt.Println("SNAPSHOT VIOLATION: the sign bytes of a shared DID document / message changed while other goroutines validated it (validation writes to its input)")
+					os.Exit(1)
+				}
+				if _, ok := didtypes.Verify(richSig, &rich, 0, richKey.PubKey()); !ok {
+					fmt.Println("SNAPSHOT VIOLATION: a proof made before validation no longer verifies on the shared document")
+					os.Exit(1)
+				}
 				_, _ = sdk.AccAddressFromBech32(A.Bech)
 				_ = A.Addr.String()
 			}
